@@ -116,6 +116,16 @@ def run_unit(ctx, unit_name, targets=None, search_map=None, only_labels=None, ti
         return None
     cl = V.classify(u, res)
     js = res.get('json')
+    # must-fail probes (assert(false) under the axiom groups): they have to FAIL, else the axioms are inconsistent
+    mf_seen = set(e.get('fn')[9:] for e in cl['errors'] if str(e.get('fn') or '').startswith('mustfail:'))
+    cl['errors'] = [e for e in cl['errors'] if not str(e.get('fn') or '').startswith('mustfail:')]
+    if not cl['compile_errors']:
+        for mf in u.mustfail_labels:
+            if mf not in mf_seen:
+                ctx.undecide('must-fail probe %s in unit %s was PROVED: the assumed axioms are inconsistent' % (mf, unit_name))
+        if res.get('json'):
+            vr0 = res['json']['verification-results']
+            vr0['errors'] = max(0, vr0.get('errors', 0) - len(mf_seen))
     forced = set()
     if cl['compile_errors']:
         # A function uses a construct outside the Verus subset (or no longer type-checks against the
@@ -177,7 +187,7 @@ def run_unit(ctx, unit_name, targets=None, search_map=None, only_labels=None, ti
         def ekey(e):
             return (e.get('fn'), re.sub(r'\s+', ' ', e['obligation']))
         fr0 = V.function_results(res)
-        failing = [n for n, r_ in fr0.items() if not r_['success']]
+        failing = [n for n, r_ in fr0.items() if not r_['success'] and 'mustfail_' not in n]
         confirmed = {}
         ok_iso = True
         for name in failing:
